@@ -107,7 +107,29 @@ func parseDoc(src string) (*doc, error) {
 	return d, nil
 }
 
-// elements that are display:none or descend from one (must generate no box)
+// the display value an element's style attribute declares ("" if none): the last display declaration wins
+func declaredDisplay(nd *html.Node) string {
+	out := ""
+	for _, a := range nd.Attr {
+		if a.Key != "style" {
+			continue
+		}
+		for _, decl := range strings.Split(a.Val, ";") {
+			kv := strings.SplitN(decl, ":", 2)
+			if len(kv) == 2 && strings.TrimSpace(strings.ToLower(kv[0])) == "display" {
+				out = strings.TrimSpace(strings.ToLower(kv[1]))
+			}
+		}
+	}
+	return out
+}
+
+// elements that are display:none or descend from one (must generate no box).
+// MUST be called on a parse on which no box has been generated yet: elementToBox
+// writes into the style objects it visits (footnote-display, "no root element").
+// An element is hidden when its computed display is none OR its style attribute
+// says so (the generated documents have no !important rule that could override
+// a style attribute), so the list does not depend on what box generation does.
 func (d *doc) hidden() []int {
 	var out []int
 	var walk func(nd *html.Node, hid bool)
@@ -116,6 +138,9 @@ func (d *doc) hidden() []int {
 			if !hid {
 				st := d.sf.Get((*utils.HTMLNode)(nd), "")
 				if st != nil && st.GetDisplay() == (pr.Display{"none"}) {
+					hid = true
+				}
+				if declaredDisplay(nd) == "none" {
 					hid = true
 				}
 			}
@@ -367,9 +392,38 @@ type gen struct {
 	tabley bool // favour table displays
 }
 
+// every other box-generating feature an element with display:none is crossed with (the property says that NO
+// box is generated for it, whatever else its style asks for)
+var noneCross = []string{
+	"float:left", "float:right", "float:footnote", "float:footnote;footnote-display:block",
+	"float:footnote;footnote-display:inline", "float:footnote;footnote-display:compact",
+	"position:absolute", "position:fixed", "position:relative", "position:running(hdr)",
+	"list-style-type:decimal;list-style-position:inside", "list-style-position:outside",
+	"footnote-display:block", "content:'k'", "",
+}
+
 func (g *gen) styleFor(allowNone bool) string {
 	r := g.r
 	var decl []string
+	if allowNone && r.Chance(1, 16) {
+		// the display:none stream: none crossed with one or two other features (also in the other order)
+		k := r.Range(1, 2)
+		var feats []string
+		for i := 0; i < k; i++ {
+			f := vlib.Pick(r, noneCross)
+			if f != "" {
+				feats = append(feats, f)
+				g.tags["none-x:"+strings.SplitN(f, ";", 2)[0]] = true
+			}
+		}
+		g.tags["display:none"] = true
+		if r.Bool() {
+			decl = append(append(decl, "display:none"), feats...)
+		} else {
+			decl = append(append(decl, feats...), "display:none")
+		}
+		return strings.Join(decl, ";")
+	}
 	if r.Chance(65, 100) {
 		var d string
 		if g.tabley && r.Chance(60, 100) {
@@ -383,9 +437,14 @@ func (g *gen) styleFor(allowNone bool) string {
 		decl = append(decl, "display:"+d)
 		g.tags["display:"+d] = true
 	}
-	if r.Chance(8, 100) {
-		decl = append(decl, "float:"+vlib.Pick(r, []string{"left", "right"}))
+	if r.Chance(10, 100) {
+		f := vlib.Pick(r, []string{"left", "right", "left", "right", "footnote"})
+		decl = append(decl, "float:"+f)
+		g.tags["float:"+f] = true
 		g.tags["float"] = true
+		if f == "footnote" && r.Chance(1, 2) {
+			decl = append(decl, "footnote-display:"+vlib.Pick(r, []string{"block", "inline", "compact"}))
+		}
 	}
 	if r.Chance(10, 100) {
 		p := vlib.Pick(r, []string{"absolute", "fixed", "relative", "absolute"})
@@ -456,15 +515,31 @@ func (g *gen) element(sb *strings.Builder, depth int) {
 	if r.Chance(1, 20) {
 		attrs += fmt.Sprintf(` span="%s"`, vlib.Pick(r, []string{"2", "3", "0", "x"}))
 	}
-	fmt.Fprintf(sb, `<%s id="n%d"%s style="%s">`, tag, id, attrs, g.styleFor(true))
+	st := g.styleFor(true)
+	isNone := strings.Contains(st, "display:none")
+	fmt.Fprintf(sb, `<%s id="n%d"%s style="%s">`, tag, id, attrs, st)
 	for _, ps := range []string{"before", "after"} {
-		if r.Chance(1, 12) {
+		if r.Chance(1, 12) || (isNone && r.Chance(1, 3)) {
 			g.tags["::"+ps] = true
 			content := vlib.Pick(r, []string{`"p"`, `" "`, `"q" "r"`, `url(pattern.png)`})
 			fmt.Fprintf(&g.css, "#n%d::%s{content:%s;%s}\n", id, ps, content, g.styleFor(true))
 		}
 	}
 	g.text(sb)
+	if isNone && r.Chance(1, 3) {
+		// content of a hidden element: a replaced element, a table part, a list item, a footnote
+		g.n++
+		switch r.Intn(4) {
+		case 0:
+			sb.WriteString(`<img src="pattern.png">`)
+		case 1:
+			fmt.Fprintf(sb, `<x-c style="display:table-cell;%s">h</x-c>`, vlib.Pick(r, []string{"", "float:left", "position:absolute"}))
+		case 2:
+			sb.WriteString(`<li style="display:list-item">h</li>`)
+		default:
+			sb.WriteString(`<span style="float:footnote">h</span>`)
+		}
+	}
 	if depth < 7 {
 		k := r.Intn(4)
 		if r.Chance(1, 5) {
@@ -494,7 +569,7 @@ func (g *gen) realTable(sb *strings.Builder, depth int) {
 		if r.Chance(1, 3) {
 			attrs += fmt.Sprintf(` rowspan="%d"`, r.Range(0, 4))
 		}
-		fmt.Fprintf(sb, `<%s%s style="%s">`, "td", attrs, g.styleFor(false))
+		fmt.Fprintf(sb, `<%s%s style="%s">`, "td", attrs, g.styleFor(true))
 		g.text(sb)
 		if r.Chance(1, 4) && depth < 6 {
 			g.element(sb, depth+2)
@@ -640,6 +715,11 @@ func genDoc(r *vlib.Rng) (string, []string) {
 // ---------------------------------------------------------------- one document
 
 func runDoc(src string, kind string, tags []string) (vlib.Case, bool) {
+	dH, err := parseDoc(src)
+	if err != nil {
+		return vlib.Case{}, false
+	}
+	hidden := dH.hidden() // before any box generation
 	dA, err := parseDoc(src)
 	if err != nil {
 		return vlib.Case{}, false
@@ -658,7 +738,6 @@ func runDoc(src string, kind string, tags []string) (vlib.Case, bool) {
 	dpIn := &dumper{d: dA, types: map[int]int{}}
 	dpIn.desc.WriteString("BEFORE FIX-UP\n")
 	inTerm := dpIn.in(inBox, 0)
-	hidden := dA.hidden()
 
 	dB, err := parseDoc(src)
 	if err != nil {
@@ -680,6 +759,18 @@ func runDoc(src string, kind string, tags []string) (vlib.Case, bool) {
 		tags = append(tags, "impl-panic")
 		fmt.Fprintf(&dpOut.desc, "PANIC at %s: %s\n", o.Site, o.Msg)
 	}
+	// the boxes moved to the footnote list by BuildFormattingStructure (not fixed up before layout)
+	dpFn := &dumper{d: dB, types: map[int]int{}}
+	var fnTerms []string
+	if o.Status == "ok" {
+		dpFn.desc.WriteString("FOOTNOTE LIST after BuildFormattingStructure\n")
+		for _, f := range *dB.foot {
+			fnTerms = append(fnTerms, dpFn.in(f, 0))
+		}
+		if len(fnTerms) > 0 {
+			tags = append(tags, "footnotes")
+		}
+	}
 	for ty, n := range dpIn.types {
 		if n > 0 && (ty >= 7 && ty <= 14) {
 			tags = append(tags, "in:"+tyNames[ty])
@@ -694,9 +785,9 @@ func runDoc(src string, kind string, tags []string) (vlib.Case, bool) {
 	if len(hid) > 0 {
 		hidTerm = "[" + strings.Join(hid, ";") + "]%Z"
 	}
-	coq := fmt.Sprintf("CTree %s %s %d %s", inTerm, hidTerm, status, outTerm)
+	coq := fmt.Sprintf("CTree %s %s %d %s [%s]", inTerm, hidTerm, status, outTerm, strings.Join(fnTerms, ";"))
 	return vlib.Case{Kind: kind, Coq: coq,
-		Desc:       map[string]interface{}{"html": src, "before": dpIn.desc.String(), "after": dpOut.desc.String(), "hidden_elements": hidden},
+		Desc:       map[string]interface{}{"html": src, "before": dpIn.desc.String(), "after": dpOut.desc.String(), "footnotes": dpFn.desc.String(), "hidden_elements": hidden},
 		Tags:       tags,
 		Nontrivial: dpIn.nodes > 3,
 	}, true
